@@ -20,6 +20,43 @@ class RawMsg:
     """A message object with out-of-range fields (dataclass does not validate)."""
 
 
+SPEC_MESSAGE_TYPES = {"REQUEST": 0x00, "REQUEST_NO_RETURN": 0x01, "NOTIFICATION": 0x02, "REQUEST_ACK": 0x40, "REQUEST_NO_RETURN_ACK": 0x41,
+                      "NOTIFICATION_ACK": 0x42, "RESPONSE": 0x80, "ERROR": 0x81, "RESPONSE_ACK": 0xC0, "ERROR_ACK": 0xC1}
+SPEC_RETURN_CODES = {"E_OK": 0, "E_NOT_OK": 1, "E_UNKNOWN_SERVICE": 2, "E_UNKNOWN_METHOD": 3, "E_NOT_READY": 4, "E_NOT_REACHABLE": 5, "E_TIMEOUT": 6,
+                     "E_WRONG_PROTOCOL_VERSION": 7, "E_WRONG_INTERFACE_VERSION": 8, "E_MALFORMED_MESSAGE": 9, "E_WRONG_MESSAGE_TYPE": 10}
+
+
+def symbolic_values(ctx):
+    """Every symbolic message type / return code must be the specification's number on the wire (bytes 14 / 15), and the
+    specification's bytes must decode to that symbol."""
+    for name, val in SPEC_MESSAGE_TYPES.items():
+        mt = getattr(H.SOMEIPMessageType, name, None)
+        b = bytes(H.SOMEIPHeader(1, 2, 3, 4, 5, mt, 1, H.SOMEIPReturnCode.E_OK, b"").build()) if mt is not None else None
+        ok = b is not None and b[14] == val
+        if ok:
+            raw = bytearray(b); raw[14] = val
+            try:
+                ok = H.SOMEIPHeader.parse(bytes(raw))[0].message_type == mt
+            except Exception:  # noqa: BLE001
+                ok = False
+        if not ok:
+            ctx.violation("message type %s is not 0x%02x on the wire" % (name, val), dict(symbol=name, specification=val, built=None if b is None else b.hex()))
+        ctx.case(("mt", name), kind="symbolic-message-type")
+    for name, val in SPEC_RETURN_CODES.items():
+        rc = getattr(H.SOMEIPReturnCode, name, None)
+        b = bytes(H.SOMEIPHeader(1, 2, 3, 4, 5, H.SOMEIPMessageType.ERROR, 1, rc, b"").build()) if rc is not None else None
+        ok = b is not None and b[15] == val
+        raw = bytearray(bytes(H.SOMEIPHeader(1, 2, 3, 4, 5, H.SOMEIPMessageType.ERROR, 1, H.SOMEIPReturnCode.E_OK, b"").build())); raw[15] = val
+        try:
+            ok = ok and H.SOMEIPHeader.parse(bytes(raw))[0].return_code == rc
+        except Exception:  # noqa: BLE001
+            ok = False
+        if not ok:
+            ctx.violation("return code %s is not 0x%02x on the wire (or the specification's byte does not decode to it)" % (name, val),
+                          dict(symbol=name, specification=val, built=None if b is None else b.hex(), spec_bytes=bytes(raw).hex()))
+        ctx.case(("rc", name), kind="symbolic-return-code")
+
+
 def run(ctx):
     r = ctx.rng
     quick = ctx.tier == "quick"
@@ -30,6 +67,7 @@ def run(ctx):
     ctx.assumptions = ["messages are values of the library's own types (enum-typed message type / return code); payload bytes"]
     cases, impl, descr = [], [], []
     layout_cases = []
+    symbolic_values(ctx)
 
     def add(op, arg, res, d):
         cases.append((op, arg))
